@@ -1,16 +1,80 @@
 #!/bin/bash
 # run.sh <property-id> quick|thorough   |   run.sh <property-id> --explain <replay.json>
 # Static check of one fpGo property against /repo's current working tree.
+#  quick    : type-check /repo, build SSA, decide every rule instance of the property (one process, a few seconds).
+#  thorough : the same decision, plus (a) the identical rule set rebuilt with the second toolchain (go1.26.8 +
+#             x/tools v0.50.0) and compared obligation by obligation, (b) a sensitivity sweep: every patch under
+#             mutants/<id>/ and seeded/<id>*/ is applied to a scratch copy of the CURRENT tree and the property's
+#             rules are run on it; the sweep only feeds the evidence file, the exit code depends on /repo alone.
 set -u
 cd "$(dirname "$0")"
 VERIF="$(pwd)"
 export GOPROXY=off GOSUMDB=off GOTOOLCHAIN=local GOFLAGS=-mod=vendor
 unset GOWORK
 REPO="${FPCHECK_REPO:-/repo}"
+OUT="${FPCHECK_VERIF:-$VERIF}"
 id="${1:?property id}"; tier="${2:-quick}"
 if [ "$tier" = "--explain" ]; then cat "${3:?replay file}"; echo; exit 0; fi
 if [ ! -x "$VERIF/bin/fpcheck" ] || [ -n "$(find "$VERIF/checker" -name '*.go' -newer "$VERIF/bin/fpcheck" -not -path '*/vendor/*' -print -quit)" ]; then
+  mkdir -p "$VERIF/bin"
   (cd "$VERIF/checker" && go build -o "$VERIF/bin/fpcheck" ./cmd/fpcheck) || { echo "ERROR: cannot build fpcheck"; exit 2; }
 fi
-mkdir -p "$VERIF/evidence"
-exec "$VERIF/bin/fpcheck" -prop "$id" -tier "$tier" -repo "$REPO" -verif "${FPCHECK_VERIF:-$VERIF}"
+mkdir -p "$OUT/evidence"
+if [ "$tier" != "thorough" ]; then
+  exec "$VERIF/bin/fpcheck" -prop "$id" -tier "$tier" -repo "$REPO" -verif "$OUT"
+fi
+# ---------------------------------------------------------------- thorough
+T=$(mktemp -d "${TMPDIR:-/tmp}/fpcheck-thorough.XXXXXX")
+trap 'rm -rf "$T"' EXIT
+mkdir -p "$T/a" "$T/b/evidence"
+FPCHECK_FULL="$T/a" "$VERIF/bin/fpcheck" -prop "$id" -tier thorough -repo "$REPO" -verif "$OUT"
+rc=$?
+# (a) second toolchain
+cross="unavailable"
+if command -v go1.26.8 >/dev/null 2>&1; then
+  if [ ! -x "$VERIF/bin/fpcheck126" ] || [ -n "$(find "$VERIF/checker" -name '*.go' -newer "$VERIF/bin/fpcheck126" -not -path '*/vendor/*' -print -quit)" ]; then
+    (cd "$VERIF/checker" && GOFLAGS=-mod=mod go1.26.8 build -modfile="$VERIF/checker126/go.mod" -o "$VERIF/bin/fpcheck126" ./cmd/fpcheck) >/dev/null 2>&1
+  fi
+  if [ -x "$VERIF/bin/fpcheck126" ]; then
+    cp "$VERIF/known_findings.json" "$T/b/" 2>/dev/null
+    FPCHECK_FULL="$T/b" "$VERIF/bin/fpcheck126" -prop "$id" -tier thorough -repo "$REPO" -verif "$T/b" >/dev/null 2>&1
+    cross=$(python3 - "$T/a/$id.obligations.json" "$T/b/$id.obligations.json" <<'PY'
+import json,sys
+try:
+    a=json.load(open(sys.argv[1])); b=json.load(open(sys.argv[2]))
+except Exception as e:
+    print("unavailable"); sys.exit()
+ka={(o['rule'],o['key']):o['status'] for o in a}; kb={(o['rule'],o['key']):o['status'] for o in b}
+diff=[k for k in set(ka)|set(kb) if ka.get(k)!=kb.get(k)]
+print("agree:%d"%len(ka) if not diff else "DISAGREE:"+";".join("%s/%s %s vs %s"%(k[0],k[1],ka.get(k),kb.get(k)) for k in sorted(diff)[:5]))
+PY
+)
+  fi
+fi
+case "$cross" in DISAGREE*) echo "  UNDECIDED $id cross-toolchain: $cross"; echo "VIOLATION property=$id replay=$OUT/evidence/$id.json"; rc=1;; esac
+# (b) sensitivity sweep (evidence only)
+applied=0; detected=0; missed=""
+for pf in "$VERIF"/mutants/"$id"/*.patch "$VERIF"/seeded/"$id"?/patch.diff; do
+  [ -f "$pf" ] || continue
+  S="$T/sweep"; rm -rf "$S"; mkdir -p "$S/repo" "$S/verif/evidence"
+  rsync -a --exclude .git "$REPO/" "$S/repo/"
+  cp "$VERIF/known_findings.json" "$S/verif/" 2>/dev/null
+  (cd "$S/repo" && patch -p1 -s < "$pf" >/dev/null 2>&1) || continue
+  (cd "$S/repo" && GOFLAGS=-mod=mod go build ./... >/dev/null 2>&1) || continue
+  applied=$((applied+1))
+  if "$VERIF/bin/fpcheck" -prop "$id" -tier quick -repo "$S/repo" -verif "$S/verif" 2>/dev/null | grep -q '^VIOLATION'; then
+    detected=$((detected+1))
+  else
+    missed="$missed $(basename "$(dirname "$pf")")/$(basename "$pf")"
+  fi
+done
+python3 - "$OUT/evidence/$id.json" "$cross" "$applied" "$detected" "$missed" <<'PY'
+import json,sys
+p,cross,applied,detected,missed=sys.argv[1:6]
+ev=json.load(open(p))
+ev['coverage']['cross_toolchain_go1.26.8_xtools_v0.50.0']=cross
+ev['coverage']['sensitivity_sweep']={'variants_applied':int(applied),'variants_detected':int(detected),'variants_missed':missed.split(),'note':'each patch under mutants/<id>/ and seeded/<id>*/ applied to a scratch copy of the current tree; evidence only, never affects the verdict'}
+json.dump(ev,open(p,'w'),indent=1)
+PY
+echo "$id thorough: cross-toolchain $cross; sensitivity sweep $detected/$applied variants detected${missed:+; missed:$missed}"
+exit $rc
